@@ -103,6 +103,12 @@ func genC15Request(r *Rng) c15req {
 	io := IOSpec{}
 	io.Method = Pick(r, []string{"GET", "HEAD", "POST", "POST", "PUT", "PATCH", "DELETE", "OPTIONS"})
 	base := Pick(r, []string{"", "application/json", "application/json", "application/x-www-form-urlencoded", "application/x-www-form-urlencoded", "text/plain", "multipart/form-data"})
+	if r.P(0.12) {
+		// other media types, among them ones that merely start like the two that select a body
+		base = Pick(r, []string{"application/json-patch+json", "application/jsonl", "application/json-seq", "application/json5",
+			"application/x-www-form-urlencoded-v2", "application/xml", "application/x-json", "text/json", "application/ld+json"})
+	}
+	mt := base
 	if base != "" {
 		base += Pick(r, []string{"", "", "; charset=utf-8", ";charset=utf-8", "; boundary=x"})
 	}
@@ -118,7 +124,7 @@ func genC15Request(r *Rng) c15req {
 	}
 	// the body is whatever the content type suggests, or deliberately something else
 	kind := "json"
-	if strings.HasPrefix(base, "application/x-www-form-urlencoded") || (r.P(0.2) && !strings.HasPrefix(base, "application/json")) {
+	if mt == "application/x-www-form-urlencoded" || (r.P(0.2) && mt != "application/json") {
 		kind = "form"
 	}
 	io.BodyKind = kind
